@@ -57,6 +57,7 @@ type Solver struct {
 	dead      bool
 	hasFP     bool
 	OneShotMs int
+	Quick     bool // feasibility mode: one solver, short limit (unknown keeps the branch, which is sound)
 	LastErr   string
 }
 
@@ -287,7 +288,11 @@ func (s *Solver) oneShot(extraRef string, names []string) (Result, map[string]ui
 	if ms == 0 {
 		ms = 60000
 	}
-	for _, kind := range []string{"z3", "cvc5", "z3-new"} {
+	kinds := []string{"z3", "cvc5", "z3-new"}
+	if s.Quick {
+		kinds = kinds[:1]
+	}
+	for _, kind := range kinds {
 		var sb strings.Builder
 		if kind == "cvc5" {
 			sb.WriteString("(set-logic ALL)\n(set-option :produce-models true)\n")
